@@ -82,26 +82,29 @@ Init == /\ chain \in [Cells -> D!AllChains] /\ ptr = [c \in Cells |-> 1]
 
 Unch(S) == UNCHANGED S
 \* ---- public operations (start in idle) ------------------------------------
-OpBounds == /\ pc = "idle" /\ nops < MaxOps /\ nops' = nops + 1
+DoBounds == /\ pc = "idle"
             /\ cache' = Memo /\ lastop' = <<"bounds", Cur[1], Cur[2]>> /\ lo' = Cur[1] /\ hi' = Cur[2] /\ seen' = TRUE
             /\ UNCHANGED <<chain, ptr, tree, dpc, big, sec, flag, match, matched, pc, start>>
+OpBounds == nops < MaxOps /\ nops' = nops + 1 /\ DoBounds
 OpComplete == /\ pc = "idle" /\ nops < MaxOps /\ nops' = nops + 1
               /\ lastop' = <<"is_complete", matched>>
               /\ UNCHANGED <<chain, ptr, tree, dpc, big, sec, flag, match, matched, cache, pc, start, lo, hi, seen>>
 \* tighten_bounds(): the wrapper's prologue
-OpTighten == /\ pc = "idle" /\ nops < MaxOps /\ nops' = nops + 1
+DoTighten == /\ pc = "idle"
              /\ cache' = Memo /\ start' = Cur
              /\ IF Cur[1] = Cur[2] THEN pc' = "idle" /\ lastop' = <<"tighten", FALSE>>
                 ELSE pc' = "func" /\ lastop' = <<"tighten-running">>
              /\ UNCHANGED <<chain, ptr, tree, dpc, big, sec, flag, match, matched, lo, hi, seen>>
+OpTighten == nops < MaxOps /\ nops' = nops + 1 /\ DoTighten
 \* the `matching' property read by a client (MultiSetEdit)
-OpMatching == /\ pc = "idle" /\ nops < MaxOps /\ nops' = nops + 1
+DoMatching == /\ pc = "idle"
               /\ IF matched \/ N = 0 \/ M = 0
                  THEN pc' = "idle" /\ lastop' = <<"matching">> /\ matched' = TRUE /\ UNCHANGED <<tree, dpc>>
                  ELSE IF flag THEN pc' = "force" /\ lastop' = <<"matching-running">> /\ UNCHANGED <<matched, tree, dpc>>
                  ELSE /\ pc' = "force-distinct" /\ lastop' = <<"matching-running">> /\ UNCHANGED matched
                       /\ tree' = {D!Entry(c) : c \in Cells} /\ dpc' = "outer"
               /\ UNCHANGED <<chain, ptr, big, sec, flag, match, cache, start, lo, hi, seen>>
+OpMatching == nops < MaxOps /\ nops' = nops + 1 /\ DoMatching
 \* ---- internal steps ---------------------------------------------------------
 \* the body of tighten_bounds, one call
 Func == /\ pc = "func"
